@@ -287,6 +287,8 @@ class Defn:
                 kind = rng.choice(["bin", "str", "binraw", "strraw"])
                 tn = f"{fn}_T"
                 adj = ["8", "0"]
+                if rng.random() < 0.12:
+                    adj = ["0", rng.choice(["16", "8", "24"])]     # intercept only: a constant length whatever LEN says
                 if self.neg_lengths and rng.random() < 0.5:
                     adj = rng.choice([["8", "-16"], ["-8", "16"], ["1", "-3"], ["8", "-8"]])
                 if self.adj_pool and rng.random() < 0.7:
